@@ -111,3 +111,47 @@ Theorem C03_key_tables_agree : forall m, klookup KEY_TEXT m = klookup KEY_VALUE 
 Proof. exact SerKeys.key_tables_agree. Qed.
 Print Assumptions C03_key_tables_agree.
 
+
+(* ---- the Serializer's control logic TRANSLATED ON THIS RUN (tools/translate_ser.py -> Gen/SerTables.v: the 31 methods of impl Serializer for &mut Serializer and the 15
+        methods of the seven Compound impls, statement by statement, with the State transitions): Ser.ser is the interpretation of the translated methods composed
+        according to the serde call protocol, for every node of the call tree ---- *)
+From SJ Require Import Base.Bytes Base.Utf8 Model.Read Model.Num Model.Sval Model.Ser Model.KeyAst Model.SerAst Gen.SerTables.
+From SJ Require Import Proofs.SerSrc.
+Theorem C03_serializer_is_source :
+  forall (cf : cfg) (raw_value : bool) (fmt32 fmt64 : N -> bytes) (F : formatter) (sname : bytes) (v : sval) (st : fstate),
+  is_private_token SER_SOURCE sname = false ->
+  ser cf fmt32 fmt64 F v st =
+  run_protocol SER_SOURCE (arbitrary_precision cf) raw_value fmt32 fmt64 F (ser cf fmt32 fmt64 F) (key_ser fmt32 fmt64) sname v st.
+Proof. exact (@SerSrc.serializer_model_is_translated_source). Qed.
+Print Assumptions C03_serializer_is_source.
+
+Theorem C03_compound_methods_are_source :
+  forall (ap rv : bool) (fmt32 fmt64 : N -> bytes) (F : formatter) (rec : sval -> fstate -> tr fstate) (keyser : sval -> tr unit)
+         (cs : cstate) (st : fstate),
+  let RUN := run SER_SOURCE ap rv fmt32 fmt64 F rec keyser SER_FUEL in
+  (forall t f e, is_elem_method t f ->
+     RUN (MComp t f) (with_value (ANode e)) (st, Some (CMap cs)) =
+     do* st1 := lift (begin_array_value F (is_first cs) st) in do* st2 := rec e st1 in do* st3 := lift (end_array_value F st2) in
+     tret (st3, Some (CMap Rest))) /\
+  (forall t, t = TSeq \/ t = TTuple \/ t = TTupleStruct ->
+     RUN (MComp t Cend) no_args (st, Some (CMap cs)) = do* st1 := close_seq F cs st in tret (st1, Some (CMap cs))) /\
+  (RUN (MComp TTupleVariant Cend) no_args (st, Some (CMap cs)) =
+     do* st1 := close_seq F cs st in do* st2 := close_variant F st1 in tret (st2, Some (CMap cs))) /\
+  (forall k, RUN (MComp TMap Ckey) (set_arg PKey (ANode k) no_args) (st, Some (CMap cs)) =
+     do* st1 := lift (begin_object_key F (is_first cs) st) in do* _ := keyser k in do* st2 := lift (end_object_key F st1) in
+     tret (st2, Some (CMap Rest))) /\
+  (forall v, RUN (MComp TMap Cvalue) (with_value (ANode v)) (st, Some (CMap cs)) =
+     do* st1 := lift (begin_object_value F st) in do* st2 := rec v st1 in do* st3 := lift (end_object_value F st2) in
+     tret (st3, Some (CMap cs))) /\
+  (forall t, t = TMap \/ t = TStruct ->
+     RUN (MComp t Cend) no_args (st, Some (CMap cs)) = do* st1 := close_map F cs st in tret (st1, Some (CMap cs))) /\
+  (forall t k v, is_field_method t ->
+     RUN (MComp t Cfield) (set_arg PKey (AStr k) (with_value (ANode v))) (st, Some (CMap cs)) =
+     do* st1 := lift (begin_object_key F (is_first cs) st) in do* _ := keyser (SStr k) in do* st2 := lift (end_object_key F st1) in
+     do* st3 := lift (begin_object_value F st2) in do* st4 := rec v st3 in do* st5 := lift (end_object_value F st4) in
+     tret (st5, Some (CMap Rest))) /\
+  (RUN (MComp TStructVariant Cend) no_args (st, Some (CMap cs)) =
+     do* st1 := close_map F cs st in do* st2 := close_variant F st1 in tret (st2, Some (CMap cs))).
+Proof. exact (@SerSrc.compound_methods_are_translated_source). Qed.
+Print Assumptions C03_compound_methods_are_source.
+
